@@ -168,6 +168,23 @@ struct Case {
     arbitrary: bool,
 }
 
+/// the same linear function in another message variant: a Quadratic without quadratic entries or a
+/// Polynomial with monomials of degree <= 1 (each id once, no zero coefficient) is still linear
+fn revariant(rng: &mut Rng, l: v1::Linear) -> v1::Function {
+    match rng.below(6) {
+        0 => f_quadratic(quadratic(vec![], Some(l))),
+        1 => {
+            let mut terms: Vec<(Vec<u64>, f64)> = l.terms.iter().map(|t| (vec![t.id], t.coefficient)).collect();
+            if l.constant != 0.0 {
+                terms.push((vec![], l.constant));
+            }
+            rng.shuffle(&mut terms);
+            f_polynomial(polynomial(terms))
+        }
+        _ => f_linear(l),
+    }
+}
+
 fn gen_case(rng: &mut Rng) -> Case {
     let avoid = avoid_known();
     let want_nonlinear = rng.chance(1, 8);
@@ -212,7 +229,10 @@ fn gen_case(rng: &mut Rng) -> Case {
             0 => None,
             1 => Some(f_const(constant(rng, arbitrary))),
             2 => Some(f_linear(linear(vec![], constant(rng, arbitrary)))),
-            _ => Some(f_linear(linear(gen_terms(rng, &pool, arbitrary, pool.is_empty()), constant(rng, arbitrary)))),
+            _ => {
+                let l = linear(gen_terms(rng, &pool, arbitrary, pool.is_empty()), constant(rng, arbitrary));
+                Some(revariant(rng, l))
+            }
         }
     };
     inst.sense = if rng.bool() { SENSE_MIN } else { SENSE_MAX };
@@ -232,7 +252,10 @@ fn gen_case(rng: &mut Rng) -> Case {
             match rng.below(10) {
                 0 => f_const(constant(rng, arbitrary)),
                 1 => f_linear(linear(vec![], constant(rng, arbitrary))),
-                _ => f_linear(linear(gen_terms(rng, &pool, arbitrary, pool.is_empty()), constant(rng, arbitrary))),
+                _ => {
+                    let l = linear(gen_terms(rng, &pool, arbitrary, pool.is_empty()), constant(rng, arbitrary));
+                    revariant(rng, l)
+                }
             }
         };
         let mut c = constraint(*cid, if rng.bool() { EQ_ZERO } else { LE_ZERO }, Some(f));
@@ -240,6 +263,11 @@ fn gen_case(rng: &mut Rng) -> Case {
             gen_metadata(rng, &mut c);
         }
         inst.constraints.push(c);
+    }
+    // a constraint that was removed earlier is not part of the written problem and must not disturb it
+    if rng.chance(1, 6) && !pool.is_empty() {
+        let c = constraint(9_000_001, LE_ZERO, Some(f_linear(linear(gen_terms(rng, &pool, arbitrary, false), constant(rng, arbitrary)))));
+        inst.removed_constraints.push(removed(c, "earlier", Default::default()));
     }
     if rng.chance(1, 3) {
         let mut d = v1::instance::Description::default();
@@ -325,13 +353,13 @@ impl Property for C18 {
     }
     fn cases(&self, tier: Tier) -> u64 {
         match tier {
-            Tier::Quick => 3_000,
+            Tier::Quick => 40_000,
             Tier::Thorough => 3_000_000,
         }
     }
     fn min_nontrivial(&self, tier: Tier) -> u64 {
         match tier {
-            Tier::Quick => 500,
+            Tier::Quick => 6_000,
             Tier::Thorough => 500_000,
         }
     }
